@@ -242,7 +242,10 @@ def rule_bootstrap(ctx):
                               f"`create database db2; use schema db2.s; select equal_null(1,1)` fails (function does not exist)")
 
 
+from .c10_wiring import rule_wiring  # noqa: E402
+
 RULES = [
+    ("C10.d", rule_wiring, ("quick", "thorough")),
     ("C10.a", rule_order, ("quick", "thorough")),
     ("C10.b", rule_side_channel, ("quick", "thorough")),
     ("C10.c", rule_bootstrap, ("quick", "thorough")),
